@@ -13,6 +13,48 @@ CHECKS = {
          "Every factor the library can produce per base unit pair is enumerated (exhaustive over symbol pairs x exponents -4..4, all derived symbols) and compared with exact rationals; random system triples exercise every target form, round trips, composition, identity and cross-dimension rejection, while postconditions on compute_conversion_factor/convert_unitvalue observe every internal call. Held = no disagreement on the executions listed in the evidence.",
          "Trusted: vf/si.py (SI definitions as Fractions), CPython float->Fraction exactness. Bounded: exponents in [-4,4], magnitudes within 1e+-8.",
          "DESIGN.md 2/C06"),
+ "C02": ("offline conservation checker over recorded trajectories of the three engines (exact integer left null space computed by the harness)",
+         "Thousands of trajectories (grids with every boundary mix incl. periodic axes of length 1-2 and zero-diffusivity walls; graphs with isolated nodes, self-loops, parallel edges; moieties, cycles, pure diffusion; three sampling policies) are recorded and every vector of an exact integer basis of the left null space over never-chemostated species is checked at every sample: exactly for tau-leap/Gillespie, within 1e-12*(steps+10)*sum|c||x| for Euler.",
+         "Trusted: rational Gaussian elimination in vf/ref.py. Euler trajectories that become non-finite are skipped and counted.", "DESIGN.md 2/C02"),
+ "C03": ("trace monitors on real trajectories (bitwise constancy of flagged entries, per-step rate-law check, Gillespie step-legality classifier with chemostat-masked deltas) + reference-model comparison of kinetics / dxdtf / apply_reaction",
+         "Flagged entries are compared bitwise with sample 0 over trajectories of all three engines; every Euler step of unflagged entries is checked against the masked reference law; every Gillespie step must be the masked effect of one possible channel; compute_dstatedt(apply_chemostats=True), make_dxdtf and apply_reaction are compared entry by entry on asymmetric chemostat maps (flags on species >= 1 / cells >= 1).",
+         "Trusted: vf/ref.py. States are exact integers in molecules with init_state_processing='none'.", "DESIGN.md 2/C03"),
+ "C05": ("reference evaluator (exact Fraction SI value + dimension + propagated error bound) against the real operators on random expression trees; icontract postconditions on the internal units functions",
+         "Random expression trees (depth <= 5, all operand-type pairings and reflected operators, every leaf in its own unit system out of all 1100) are evaluated by the library and by an exact-rational reference; values must agree within 64x a propagated forward error bound, dimensions exactly, and every dimensionally meaningless node must raise at that node.",
+         "Trusted: vf/si.py and the reference evaluator in vf/checks/c05.py. Ill-conditioned trees (cancelling modulus) and comparisons closer than the bound are skipped and counted.", "DESIGN.md 2/C05"),
+ "C08": ("bitwise trace comparison (sha1 of raw t and data bytes) of executions under different loop drivings, engine objects and process histories against a fresh-process reference",
+         "Each script is run once in a fresh process (iterate only) and many more times under iterate_n(random k), run(0|1|2|5|1000 ms) and random mixes, on new or reused engine objects, after 0-3 other simulations (other engines / space types, finalized or abandoned) in the same process, under CPU contention; the realised partitions of the iteration sequence are recorded. Also: stored script (incl. drawn seed) reproduces the trajectory; Euler ignores the seed.",
+         "Same binary, same machine. Partition counts for Gillespie are per call (moved / not moved), for fixed-step engines exact.", "DESIGN.md 2/C08"),
+ "C09": ("offline trace checker: the records made under each sampling policy must be exactly the contract's selection over the engine's own step sequence (obtained under on_iteration and cross-read through the raw exports), compared on raw bytes",
+         "For each generated script the step sequence (T_k, X_k) is taken from an on_iteration run read step by step through engineexport_get_time/get_state; the policy under test (driven in random chunks, optionally with explicit sample() calls) must record required subset <= actual <= permitted selection with bit-identical times and states in (sample, species, cell) order; fixed-step clock n*dt, completion at the first step beyond t_max, progress and completion flags are checked after every iterate.",
+         "Sorted request lists only. Engine-side doubles of the time quantities are obtained through the library's conversion and cross-checked against the SI description (1e-12).", "DESIGN.md 2/C09"),
+ "C10": ("sandboxed lifecycle driver checked against a reference state machine: exhaustive short call sequences + random long ones on one engine, random interleavings over two engine objects compared with single-engine projections, CPU-time termination monitor",
+         "All call sequences of length 3 (quick) / 4 (thorough) over an 11-call alphabet after setup, per engine kind, plus thousands of random sequences of length 5-12: after every call the model predicts steps taken (raw clock), record count, completion flag, return value and the exact output bytes. Two-engine interleavings (each in a fresh process) are compared call by call with each engine run alone. Set-up and loop termination is decided on CPU time for below-one / fractional / macroscopic amounts under every init mode.",
+         "'Returns' means within a CPU budget >= 1000x the typical cost. Calls on a released engine other than setup/finalize/is_complete are outside the statement. Known finding C10/shared-native-state is keyed on the call pattern, single-engine histories are never excused.", "DESIGN.md 2/C10"),
+ "C12": ("round-trip monitor with an independent field-by-field extractor of physical content (SI via vf/si.py) over dict, JSON text and file paths (single and multi-file layouts loaded from another working directory)",
+         "Generated networks / grids / graphs / systems / scripts / trajectories with a different unit system at every level go through to_dict/from_dict, JSON text, save/load (both trajectory storage modes) and hand-written multi-file layouts with relative paths and .npy/.txt side files; physical content, idempotence of to_dict, every reader alias and every documented default are compared.",
+         "Defaults are those of documentation/json_and_dict_doc.rst restricted to keys the readers accept.", "DESIGN.md 2/C12"),
+ "C13": ("reference-model monitor (density x volume from the SI description) + frame-condition contracts on the setters (whole-array snapshots)",
+         "Every (species, cell) entry of the default state and chemostat map of generated systems (species, network, space, nodes and system each in their own unit system; asymmetric grid shapes) is compared with the description; every addressing form of the getters/setters is exercised on arrays tagged with distinct numbers, with whole-array before/after snapshots.",
+         "Override dictionaries and reset_state are outside the statement (found broken, see DESIGN.md).", "DESIGN.md 2/C13"),
+ "C14": ("exact-arithmetic oracle on the recorded t=0 state + sequential statistical monitors (Ville mean test, randomised PIT + DKW) with a stated false-alarm bound + CPU-time termination monitor",
+         "Thousands of set-ups of rectangular asymmetric states (below one molecule, integers around 100, fractional, large, sparse) x 4 modes x 3 engines x grid/graph: integrality, floor totals (judged only when exact and float sums agree), zero-stays-zero, pass-through bytes, reproducibility per seed, Poisson counts vs Poisson(amount of that entry).",
+         "False-alarm probability <= 3e-12 per run; power: a relative error of a few percent in the Poisson mean is detected within the quick tier.", "DESIGN.md 2/C14"),
+ "C15": ("exhaustive reference-model monitor over all grids w,h,d in 1..4 x 8 boundary mixes (every cell, cell pair, out-of-range position), neighbour sets revealed by the Python kinetics and by one native Euler step, grid vs grid_to_graph equivalence",
+         "All 512 small grids: index/coordinate bijection in every position form, rejection of every out-of-range index and coordinate, are_neighbors/get_neighbors vs the reference relation, the face multiset revealed by the engine from one-hot states, grid_to_graph structure, and Euler / kinetics equivalence between grid and graph on generated systems.",
+         "Python kinetics magnitudes only where periodic axes have length >= 3 (the statement's restriction).", "DESIGN.md 2/C15"),
+ "C16": ("brute-force reference aggregation over the fine grid vs coarsegrain_system / uncoarsegrain_trajectory / simulate(cgmap=...)",
+         "Random partitions within environment classes (non-contiguous groups, singletons, dropped cells of several environments) on 1-D/2-D/3-D grids: volumes, totals, environments, OR-ed flags, edge set, surfaces, centroid distances; invalid maps rejected; un-coarse-graining spreads evenly; identity map reproduces the plain Euler run.",
+         "Identity-map equivalence for the deterministic engine only.", "DESIGN.md 2/C16"),
+ "C17": ("self-identifying trajectories (data[n,s,c] = 1e6 n + 1e3 s + c) and an exact-rational brute-force oracle for the sample look-ups, exhaustive over all shapes 1..5",
+         "All shape triples in 1..5 (1..7 thorough) on every grid factorisation and graphs: the four accessors and direct indexing agree bitwise and in units, whole-state block, merged sum, every species/cell addressing form; get_sample_index under the three policies vs brute force for queries before / on / at exact ties / between / after samples in any time unit.",
+         "Queries whose unit conversion is inexact are skipped near decision boundaries and counted.", "DESIGN.md 2/C17"),
+ "C18": ("compositional SI semantics oracle (vf/si.py) over an exhaustive family of unit strings, print-parse round trip, and a generated rejection family",
+         "Every symbol x exponent -9..9, all ordered symbol pairs x both separators, random triples, a/b vs a.b-1 vs permutations, print-parse round trip over all 1100 systems and 1e5 doubles (bit-identical), and a malformed family (unknown symbol, separators, signed/fractional/misplaced exponents, a blank at every position, two units of one base kind, glued or non-numeric values) that must raise.",
+         "'nan', 'inf', '1_0' are numeric literals for Python and not counted as non-numeric.", "DESIGN.md 2/C18"),
+ "C19": ("structured-list oracle: equations rendered from (coefficient, label) lists with arbitrary spacing are parsed by the real Reaction class and compared field by field; SI oracle for constants",
+         "20k (quick) / 500k (thorough) random equations: stoichiometry with repeats summed, dsto, orders, print-parse round trip, constant dimensions per order in every unit system, wrong-dimension rejection, split, K (scalar and per environment), and the three network refusals (each paired with the accepted unmutated network).",
+         "Labels follow the documented rules (no whitespace, '+', '->').", "DESIGN.md 2/C19"),
 }
 
 PENDING = {
